@@ -158,7 +158,9 @@ def variables_of(t, acc=None):
     return acc
 
 
-def ob_formula(tree, label, arrays=False, engine_vars=False):
+def ob_formula(tree, label, arrays=False, engine_vars=False, reuse=False):
+    """reuse: the Function object first holds and evaluates another formula with other variable values, then gets this formula through
+    its attributes (`formula`, `load()`, `variables`): what counts is the current formula and the current variables"""
     def run(ob):
         fl = install()
         set_mode("R")
@@ -187,6 +189,9 @@ def ob_formula(tree, label, arrays=False, engine_vars=False):
                               "xv = env.pop('x') if 'x' in env else 0.0",
                               f"f = fl.Function.create('f', {text!r}, e); f.variables = dict(env)", "got = f.membership(xv)",
                               "env.update({'X': e.input_variable('X').value, 'O': e.output_variable('O').value, 'x': xv})"]
+                elif reuse:
+                    lines += ["f = fl.Function.create('f', 'a * 2 + b'); f.variables = {'a': 0.5, 'b': 0.25, 'c': 4.0}; f.membership(0.0)",
+                              f"f.formula = {text!r}; f.load(); f.variables.clear(); f.variables.update(env)", "got = f.membership(0.0)"]
                 else:
                     lines += [f"f = fl.Function.create('f', {text!r}); f.variables = dict(env)", "got = f.membership(0.0)"]
                 lines += ["exp = EVAL(tree, env)",
@@ -207,6 +212,15 @@ def ob_formula(tree, label, arrays=False, engine_vars=False):
                     f = fl.Function.create("f", text, e)
                     f.variables = {k: v for k, v in env.items() if k not in ("X", "O", "x")}
                     got = f.membership(env.get("x", 0.0))
+                elif reuse:
+                    f = fl.Function.create("f", "a * 2 + b")
+                    f.variables = {"a": core.const(0.5), "b": core.const(0.25), "c": core.const(4.0)}
+                    f.membership(0.0)
+                    f.formula = text
+                    f.load()
+                    f.variables.clear()
+                    f.variables.update(env)
+                    got = f.membership(0.0)
                 else:
                     f = fl.Function.create("f", text)
                     f.variables = dict(env)
@@ -328,7 +342,13 @@ def gen(rng, d):
 
 
 def _obligations(tier, seed):
-    return [(nm, ob_formula(t, nm, **kw)) for nm, t, kw in families(tier, seed)]
+    fam = families(tier, seed)
+    obs = [(nm, ob_formula(t, nm, **kw)) for nm, t, kw in fam]
+    # the same texts on a Function object that held another formula before (every function, some operator pairs)
+    plain = [(nm, t) for nm, t, kw in fam if not kw]
+    picked = [(nm, t) for nm, t in plain if nm.startswith("function/")] + [x for i, x in enumerate(p_ for p_ in plain if p_[0].startswith("pair/")) if i % 12 == 0]
+    obs += [(f"reuse/{nm}", ob_formula(t, f"reuse/{nm}", reuse=True)) for nm, t in picked]
+    return obs
 
 
 # ------------------------------------------------------------------------------------------------------------------
